@@ -9,11 +9,13 @@ Record crypto_ok (C : crypto) : Prop := {
   hash_eqb_spec : forall a b, hash_eqb C a b = true <-> a = b;
   (* SHA-1 does not collide on the passwords considered *)
   digest_inj : forall p q, digest C p = digest C q -> p = q;
-  (* bcrypt: a hash generated from p verifies exactly p -- among [plain] passwords (at most 72 bytes, no
-     NUL byte).  Outside that domain bcrypt itself identifies strings: it keys on the first 72 bytes of
-     the cyclic repetition of password ++ NUL. *)
-  verify_gen : forall s p q, plain C p = true -> plain C q = true ->
-                             (verify C (gen C s p) q = true <-> p = q)
+  (* bcrypt: a hash generated from p (any cost, any salt) verifies q exactly when bcrypt cannot tell p and q
+     apart: it keys on [bkey] = the first 72 bytes of the cyclic repetition of password ++ NUL ... *)
+  verify_key : forall c s p q, verify C (gen C c s p) q = true <-> bkey C p = bkey C q;
+  (* ... which is injective on [plain] passwords (at most 72 bytes, no NUL byte) *)
+  bkey_plain : forall p q, plain C p = true -> plain C q = true -> bkey C p = bkey C q -> p = q;
+  (* bcrypt.Cost reads back the cost the hash was generated with *)
+  cost_gen : forall c s p, cost C (gen C c s p) = c
 }.
 
 (* ---- association lists ---- *)
@@ -54,8 +56,9 @@ Ltac keq :=
   | H : _ && _ = true |- _ => apply andb_true_iff in H; destruct H
   end.
 
-Ltac acc := cbn [users sessions cache cap now next_uuid with_users with_users_fresh with_sessions with_cache with_now
-                 u_hash u_disabled u_uuid u_pw s_user s_uuid s_expires s_ttl s_onetime refreshed fst snd] in *.
+Ltac acc := cbn [users sessions cache cap now next_uuid pending with_users with_users_del with_sessions with_cache with_now
+                 with_pending u_hash u_disabled u_uuid u_ver u_pw s_user s_uuid s_expires s_ttl s_onetime refreshed
+                 p_user p_pw p_cost p_ver fst snd] in *.
 
 Section Proofs.
   Variable C : crypto.
@@ -89,7 +92,7 @@ Section Proofs.
   (* ---- the invariant ---- *)
   Definition pw_ok (usr : user) : Prop :=
     (u_hash usr = None /\ u_pw usr = 0) \/
-    (exists s, u_hash usr = Some (gen C s (u_pw usr)) /\ u_pw usr <> 0).
+    (exists c s, u_hash usr = Some (gen C c s (u_pw usr)) /\ u_pw usr <> 0).
 
   Record Inv (st : state) : Prop := {
     inv_u_uuid : forall u usr, alookup u (users st) = Some usr -> u_uuid usr < next_uuid st;
@@ -103,7 +106,7 @@ Section Proofs.
   Lemma Inv_init capacity : Inv (init C capacity).
   Proof. split; cbn; intros; try discriminate; tauto. Qed.
 
-  Lemma new_hash_ok p salt b uu : pw_ok (mkUser (new_hash C p salt) b uu p).
+  Lemma new_hash_ok p salt c b uu vv : pw_ok (mkUser (new_hash C p salt c) b uu vv p).
   Proof.
     unfold pw_ok, new_hash; cbn. destruct (p =? 0) eqn:E; keq.
     - left; auto.
@@ -129,14 +132,67 @@ Section Proofs.
     | H : Some _ = None |- _ => discriminate H
     end.
 
+  (* ---- the password check (GetUser + AuthenticateWithReason through the cache) ---- *)
+  Lemma pass_check_frame st u q ev :
+    let st1 := fst (pass_check C st u q ev) in
+    users st1 = users st /\ sessions st1 = sessions st /\ now st1 = now st /\ next_uuid st1 = next_uuid st /\
+    pending st1 = pending st /\ cap st1 = cap st /\
+    (forall x, In x (cache st1) -> In x (cache st) \/
+        (exists usr h, alookup u (users st) = Some usr /\ u_hash usr = Some h /\ x = (digest C q, h) /\ verify C h q = true)).
+  Proof.
+    unfold pass_check. repeat dm; cbn [fst]; acc; repeat split; auto.
+    intros x Hx. apply cache_put_in in Hx. destruct Hx as [Hx|Hx]; [left; exact Hx | right; eauto 8].
+  Qed.
+
+  Lemma pass_check_Inv st u q ev : Inv st -> Inv (fst (pass_check C st u q ev)).
+  Proof.
+    intros [I1 I2 I3 I4]. destruct (pass_check_frame st u q ev) as [E1 [E2 [E3 [E4 [E5 [E6 E7]]]]]].
+    split; rewrite ?E1, ?E2, ?E4; auto.
+    intros d h Hin. destruct (E7 _ Hin) as [Hin'|[usr [h' [_ [_ [E Hv]]]]]]; [eauto|]. inv E. eauto.
+  Qed.
+
+  Lemma pass_check_sound st u q ev w :
+    Inv st -> snd (pass_check C st u q ev) = Some w ->
+    w = u /\ exists usr, alookup u (users st) = Some usr /\ u_disabled usr = false /\
+      match u_hash usr with Some h => verify C h q = true | None => q = 0 end /\
+      bkey C q = bkey C (u_pw usr).
+  Proof.
+    intros [I1 I2 I3 I4] H. unfold pass_check in H.
+    destruct (alookup u (users st)) as [usr|] eqn:Eu; [|discriminate H].
+    destruct (u_disabled usr) eqn:Ed; [discriminate H|].
+    specialize (I4 _ _ Eu). unfold pw_ok in I4.
+    destruct (u_hash usr) as [h|] eqn:Eh.
+    - assert (Hv : verify C h q = true /\ w = u).
+      { destruct (kmem C (digest C q, h) (cache st)) eqn:Ek.
+        - cbn in H. inv H. split; [|reflexivity].
+          apply kmem_in in Ek. destruct (I3 _ _ Ek) as [p [Hd Hp]].
+          apply (digest_inj C OK) in Hd. subst; assumption.
+        - destruct (verify C h q) eqn:Ev; cbn in H; [inv H; auto | discriminate H]. }
+      destruct Hv as [Hv ->]. split; [reflexivity|]. exists usr.
+      split; [solve [auto]|]. split; [solve [auto]|]. rewrite ?Eh. split; [exact Hv|].
+      destruct I4 as [[I4 _]|[c [s [I4 _]]]]; [discriminate I4|].
+      inv I4. apply (verify_key C OK) in Hv. congruence.
+    - cbn in H. destruct (q =? 0) eqn:E0; [|discriminate H]. inv H. keq.
+      split; [reflexivity|]. exists usr.
+      split; [solve [auto]|]. split; [solve [auto]|]. rewrite ?Eh. split; [exact E0|].
+      destruct I4 as [[_ I4]|[c [s [I4 _]]]]; [congruence | discriminate I4].
+  Qed.
+
   Lemma Inv_step ccd st o : Inv st -> Inv (fst (step_gen C ccd st o)).
   Proof.
-    intros [I1 I2 I3 I4].
+    intros I. pose proof I as [I1 I2 I3 I4].
     assert (U1 : forall u usr, alookup u (users st) = Some usr -> u_uuid usr < next_uuid st + 1)
       by (intros u usr H; specialize (I1 _ _ H); lia).
     assert (U2 : forall sid s, alookup sid (sessions st) = Some s -> s_uuid s < next_uuid st + 1)
       by (intros sid s H; specialize (I2 _ _ H); lia).
-    destruct o; unfold step_gen, consume; repeat dm; cbn [fst]; try (split; assumption);
+    destruct o; unfold step_gen, consume.
+    (* the two password logins: the check keeps the invariant, registering a pending re-hash touches nothing of it *)
+    9: { destruct (pass_check C st u p ev) as [st1 w] eqn:E. cbn [fst].
+         change st1 with (fst (st1, w)). rewrite <- E. apply pass_check_Inv; exact I. }
+    9: { pose proof (pass_check_Inv st u p ev I) as I'.
+         destruct (pass_check C st u p ev) as [st1 w] eqn:E. cbn [fst] in *.
+         repeat dm; try exact I'; destruct I' as [J1 J2 J3 J4]; split; acc; auto. }
+    all: repeat dm; cbn [fst]; try (split; assumption);
       split; acc; intros; look; repeat dm; inv_some; acc; eauto using new_hash_ok; try lia.
     (* SetDisabled / InvalidateSessions keep hash and ghost password *)
     all: try match goal with
@@ -145,10 +201,6 @@ Section Proofs.
     (* CreateSession copies the user's uuid *)
     all: try match goal with
          | H : alookup ?u (users _) = Some ?usr |- u_uuid ?usr < _ => specialize (I1 _ _ H); lia
-         end.
-    (* AuthPassword: the inserted pair was just verified *)
-    all: try match goal with
-         | H : In _ (cache_put _ _ _ _ _) |- _ => apply cache_put_in in H; destruct H as [H|H]; [eauto | inv H; eauto]
          end.
     (* refresh keeps the uuid *)
     all: try match goal with
@@ -160,6 +212,10 @@ Section Proofs.
     run_gen C ccd st (ops ++ [o]) = fst (step_gen C ccd (run_gen C ccd st ops) o).
   Proof. unfold run_gen. rewrite fold_left_app. reflexivity. Qed.
 
+  Lemma run_app ccd (st : state) ops1 ops2 :
+    run_gen C ccd st (ops1 ++ ops2) = run_gen C ccd (run_gen C ccd st ops1) ops2.
+  Proof. unfold run_gen. apply fold_left_app. Qed.
+
   Lemma Inv_run ccd ops : forall st, Inv st -> Inv (run_gen C ccd st ops).
   Proof.
     induction ops as [|o ops IH]; intros st H; [exact H|].
@@ -170,32 +226,19 @@ Section Proofs.
   Proof. apply Inv_run, Inv_init. Qed.
 
   (* ================= password path ================= *)
-  Lemma password_auth_sound ccd st u q ev w :
-    Inv st -> authed (snd (step_gen C ccd st (AuthPassword u q ev))) = Some w ->
+  (* the two ways of logging in with a password *)
+  Definition password_login (o : op) (u q : N) : Prop :=
+    (exists ev, o = AuthPassword u q ev) \/ (exists a ev c, o = LoginRehash a u q ev c).
+
+  Lemma password_auth_sound ccd st o u q w :
+    Inv st -> password_login o u q -> authed (snd (step_gen C ccd st o)) = Some w ->
     w = u /\ exists usr, alookup u (users st) = Some usr /\ u_disabled usr = false /\
       match u_hash usr with Some h => verify C h q = true | None => q = 0 end /\
-      (plain C q = true -> plain C (u_pw usr) = true -> q = u_pw usr).
+      bkey C q = bkey C (u_pw usr).
   Proof.
-    intros [I1 I2 I3 I4] H. unfold step_gen in H.
-    destruct (alookup u (users st)) as [usr|] eqn:Eu; [|discriminate H].
-    destruct (u_disabled usr) eqn:Ed; [discriminate H|].
-    specialize (I4 _ _ Eu). unfold pw_ok in I4.
-    destruct (u_hash usr) as [h|] eqn:Eh.
-    - assert (V : authed (snd (step_gen C ccd st (AuthPassword u q ev))) = Some w -> True) by trivial.
-      assert (Hv : verify C h q = true /\ w = u).
-      { destruct (kmem C (digest C q, h) (cache st)) eqn:Ek.
-        - cbn in H. inv H. split; [|reflexivity].
-          apply kmem_in in Ek. destruct (I3 _ _ Ek) as [p [Hd Hp]].
-          apply (digest_inj C OK) in Hd. subst; assumption.
-        - destruct (verify C h q) eqn:Ev; cbn in H; [inv H; auto | discriminate H]. }
-      destruct Hv as [Hv ->]. split; [reflexivity|]. exists usr.
-      split; [solve [auto]|]. split; [solve [auto]|]. rewrite ?Eh. split; [exact Hv|].
-      intros Hl Hl'. destruct I4 as [[I4 _]|[s [I4 _]]]; [discriminate I4|].
-      inv I4. apply (verify_gen C OK) in Hv; auto.
-    - cbn in H. destruct (q =? 0) eqn:E0; [|discriminate H]. inv H. keq.
-      split; [reflexivity|]. exists usr.
-      split; [solve [auto]|]. split; [solve [auto]|]. rewrite ?Eh. split; [exact E0|].
-      intros _ _. destruct I4 as [[_ I4]|[s [I4 _]]]; [congruence | discriminate I4].
+    intros I [[ev ->]|[a [ev [c ->]]]] H; unfold step_gen in H;
+      destruct (pass_check C st u q ev) as [st1 w'] eqn:E; cbn [snd authed] in H; subst w';
+      apply (pass_check_sound st u q ev); auto; rewrite E; reflexivity.
   Qed.
 
   (* the fast path accepts nothing the full check rejects *)
@@ -212,14 +255,17 @@ Section Proofs.
     authed (snd (step_gen C ccd st (AuthPassword u q ev))) =
     authed (snd (step_gen C ccd (with_cache st []) (AuthPassword u q ev'))).
   Proof.
-    intros I. unfold step_gen. acc.
-    destruct (alookup u (users st)) as [usr|]; [|reflexivity].
-    destruct (u_disabled usr); [reflexivity|].
-    destruct (u_hash usr) as [h|]; [|reflexivity].
-    cbn [kmem existsb].
-    destruct (kmem C (digest C q, h) (cache st)) eqn:Ek.
-    - apply kmem_in in Ek. rewrite (cache_never_widens _ _ _ _ I Ek eq_refl). reflexivity.
-    - destruct (verify C h q); reflexivity.
+    intros I. unfold step_gen.
+    assert (E : snd (pass_check C st u q ev) = snd (pass_check C (with_cache st []) u q ev')).
+    { unfold pass_check. acc.
+      destruct (alookup u (users st)) as [usr|]; [|reflexivity].
+      destruct (u_disabled usr); [reflexivity|].
+      destruct (u_hash usr) as [h|]; [|reflexivity].
+      cbn [kmem existsb].
+      destruct (kmem C (digest C q, h) (cache st)) eqn:Ek.
+      - apply kmem_in in Ek. rewrite (cache_never_widens _ _ _ _ I Ek eq_refl). reflexivity.
+      - destruct (verify C h q); reflexivity. }
+    destruct (pass_check C st u q ev), (pass_check C (with_cache st []) u q ev'). cbn in *. congruence.
   Qed.
 
   (* ================= session path ================= *)
@@ -271,6 +317,10 @@ Section Proofs.
     match o with CreateSession _ sid' _ _ => sid' <> sid | _ => True end.
   Definition no_recreate (sid : N) (ops : list op) : Prop := Forall (not_create sid) ops.
 
+  Lemma dead_ext (st st' : state) sid :
+    users st' = users st -> sessions st' = sessions st -> now st' = now st -> dead st sid -> dead st' sid.
+  Proof. unfold dead. intros -> -> ->. auto. Qed.
+
   Lemma dead_no_auth ccd st sid o :
     dead st sid -> presents o sid -> authed (snd (step_gen C ccd st o)) = None.
   Proof.
@@ -283,7 +333,13 @@ Section Proofs.
     Inv st -> dead st sid -> not_create sid o -> dead (fst (step_gen C ccd st o)) sid.
   Proof.
     intros [I1 I2 _ _] D NC.
-    destruct o; unfold step_gen, consume; repeat dm; cbn [fst]; try exact D;
+    destruct o; unfold step_gen, consume.
+    9: { destruct (pass_check_frame st u p ev) as [E1 [E2 [E3 _]]].
+         destruct (pass_check C st u p ev) as [st1 w]; cbn [fst] in *. exact (dead_ext _ _ _ E1 E2 E3 D). }
+    9: { destruct (pass_check_frame st u p ev) as [E1 [E2 [E3 _]]].
+         destruct (pass_check C st u p ev) as [st1 w]; cbn [fst] in *.
+         repeat dm; apply (dead_ext st); acc; auto. }
+    all: repeat dm; cbn [fst]; try exact D;
       unfold dead in *; acc; intros s0 Hs0; look.
     (* user operations: the sessions are untouched, a rewritten user gets the next uuid or keeps its own *)
     all: try (destruct (D _ Hs0) as [D1|D2]; [left; exact D1|right];
@@ -316,12 +372,12 @@ Section Proofs.
   (* a successful password change, or "delete all sessions of the user" *)
   Lemma epoch_change_kills ccd st sid s o :
     Inv st -> alookup sid (sessions st) = Some s ->
-    (exists p salt, o = SetPassword (s_user s) p salt) \/ o = InvalidateSessions (s_user s) ->
+    (exists p salt c, o = SetPassword (s_user s) p salt c) \/ o = InvalidateSessions (s_user s) ->
     snd (step_gen C ccd st o) = ODone ->
     dead (fst (step_gen C ccd st o)) sid.
   Proof.
     intros [I1 I2 _ _] Es Ho Hd.
-    destruct Ho as [ [p [salt -> ] ] | -> ]; unfold step_gen in *; repeat dm; cbn [snd] in Hd; try discriminate Hd;
+    destruct Ho as [ [p [salt [c -> ] ] ] | -> ]; unfold step_gen in *; repeat dm; cbn [snd] in Hd; try discriminate Hd;
       cbn [fst]; unfold dead; acc; intros s0 Hs0; rewrite Es in Hs0; inv Hs0; right;
       intros usr0 Hu0; look; rewrite N.eqb_refl in Hu0; inv Hu0; acc; specialize (I2 _ _ Es); lia.
   Qed.
@@ -381,7 +437,13 @@ Section Proofs.
     revert s. induction ops as [|o ops IH] using rev_ind; intros s H; [discriminate H|].
     rewrite run_snoc in H. apply in_or_app.
     set (st := run_gen C ccd (init C capacity) ops) in *.
-    destruct o; unfold step_gen, consume in H; repeat dm; cbn [fst] in H; acc; look; repeat dm; inv_some; keq; subst;
+    destruct o; unfold step_gen, consume in H.
+    9: { destruct (pass_check_frame st u p ev) as [_ [E2 _]].
+         destruct (pass_check C st u p ev) as [st1 w]; cbn [fst] in *. rewrite E2 in H. left; apply IH; exact H. }
+    9: { destruct (pass_check_frame st u p ev) as [_ [E2 _]].
+         destruct (pass_check C st u p ev) as [st1 w]; cbn [fst] in *.
+         left; apply IH. repeat dm; acc; rewrite E2 in H; exact H. }
+    all: repeat dm; cbn [fst] in H; acc; look; repeat dm; inv_some; keq; subst;
       try (left; apply IH; assumption); acc;
       try (right; left; reflexivity);
       try match goal with
@@ -390,9 +452,150 @@ Section Proofs.
           end.
   Qed.
 
+  (* ================= re-hashing at login (auth.go rehashPassword) ================= *)
+  (* which strings the stored credential of u accepts *)
+  Definition creds (st : state) (u x : N) : bool :=
+    match alookup u (users st) with
+    | None => false
+    | Some usr => match u_hash usr with Some h => verify C h x | None => x =? 0 end
+    end.
+
+  (* every node hashes with cost c (passwords set, and the cost a re-hashing login wants) *)
+  Definition uniform (c : N) (o : op) : Prop :=
+    match o with
+    | CreateUser _ _ _ c' | SetPassword _ _ _ c' | LoginRehash _ _ _ _ c' => c' = c
+    | _ => True
+    end.
+  Definition no_login_rehash (o : op) : Prop :=
+    match o with LoginRehash _ _ _ _ _ => False | _ => True end.
+
+  (* the invariant of the in-flight re-hashes: whatever has happened to the user document since the login
+     read it, if its hash still has another cost than c then it still verifies the password presented *)
+  Record Good (c : N) (st : state) : Prop := {
+    good_cost : forall a pd, alookup a (pending st) = Some pd -> p_cost pd = c;
+    good_pw : forall a pd usr h, alookup a (pending st) = Some pd ->
+        alookup (p_user pd) (users st) = Some usr -> u_hash usr = Some h -> cost C h <> c ->
+        verify C h (p_pw pd) = true
+  }.
+
+  Lemma new_hash_cost p salt c h : new_hash C p salt c = Some h -> cost C h = c.
+  Proof. unfold new_hash. dm; intros E; inv E. apply (cost_gen C OK). Qed.
+
+  Lemma Good_step ccd c st o : Inv st -> Good c st -> uniform c o -> Good c (fst (step_gen C ccd st o)).
+  Proof.
+    intros I [G1 G2] U.
+    destruct o; unfold step_gen, consume; cbn [uniform] in U.
+    9: { destruct (pass_check_frame st u p ev) as [E1 [_ [_ [_ [E5 _]]]]].
+         destruct (pass_check C st u p ev) as [st1 w]; cbn [fst] in *. split; rewrite ?E1, ?E5; eauto. }
+    9: { pose proof (pass_check_sound st u p ev) as S.
+         destruct (pass_check_frame st u p ev) as [E1 [_ [_ [_ [E5 _]]]]].
+         destruct (pass_check C st u p ev) as [st1 w]; cbn [fst snd] in *.
+         destruct w as [w|]; [|split; rewrite ?E1, ?E5; eauto].
+         destruct (S w I eq_refl) as [_ [usr [Eu [_ [Hv _]]]]]. rewrite Eu.
+         destruct (wants_rehash C usr c0) eqn:Ew; [|split; rewrite ?E1, ?E5; eauto].
+         subst c0. split; acc; rewrite ?E1, ?E5; intros a0 pd; look; destruct (a0 =? a) eqn:Ea; keq.
+         - intros E; inv E; reflexivity.
+         - eauto.
+         - intros usr' h E; inv E; acc. intros Eu' Eh Hc. rewrite Eu in Eu'; inv Eu'. rewrite Eh in Hv. exact Hv.
+         - eauto. }
+    all: repeat dm; cbn [fst]; try (split; assumption); split; acc; intros; look; repeat dm; inv_some; acc; keq; subst;
+      eauto;
+      try match goal with
+          | Hh : new_hash C _ _ _ = Some ?h, Hc : cost C ?h <> _, Hp : alookup _ (pending _) = Some ?p |- _ =>
+              apply new_hash_cost in Hh; pose proof (G1 _ _ Hp); congruence
+          end.
+  Qed.
+
+  Lemma pending_nil_step ccd st o :
+    pending st = [] -> no_login_rehash o -> pending (fst (step_gen C ccd st o)) = [].
+  Proof.
+    intros E NL. destruct o; unfold step_gen, consume; cbn [no_login_rehash] in NL; try contradiction.
+    9: { destruct (pass_check_frame st u p ev) as [_ [_ [_ [_ [E5 _]]]]].
+         destruct (pass_check C st u p ev) as [st1 w]; cbn [fst] in *. congruence. }
+    all: repeat dm; cbn [fst]; acc; try assumption; rewrite E in *; try discriminate; reflexivity.
+  Qed.
+
+  Lemma Good_nil c st : pending st = [] -> Good c st.
+  Proof. intros E. split; rewrite E; cbn; intros; discriminate. Qed.
+
+  Lemma pending_nil_run ccd ops : forall st,
+    pending st = [] -> Forall no_login_rehash ops -> pending (run_gen C ccd st ops) = [].
+  Proof.
+    induction ops as [|o ops IH]; intros st E F; [exact E|]. inv F.
+    cbn [run_gen fold_left]. apply IH; auto using pending_nil_step.
+  Qed.
+
+  Lemma Good_run ccd c ops : forall st,
+    Inv st -> Good c st -> Forall (uniform c) ops -> Good c (run_gen C ccd st ops).
+  Proof.
+    induction ops as [|o ops IH]; intros st I G F; [exact G|]. inv F.
+    cbn [run_gen fold_left]. apply IH; auto using Inv_step, Good_step.
+  Qed.
+
+  (* histories: anything without re-hashing logins (before the cost change), then anything at cost c *)
+  Lemma Good_reach ccd capacity c ops0 ops1 :
+    Forall no_login_rehash ops0 -> Forall (uniform c) ops1 ->
+    Good c (run_gen C ccd (run_gen C ccd (init C capacity) ops0) ops1).
+  Proof.
+    intros F0 F1. apply Good_run; [apply Inv_reach | apply Good_nil, pending_nil_run; auto | exact F1].
+  Qed.
+
+  Lemma verify_same_key h c s p x :
+    (exists c0 s0 p0, h = gen C c0 s0 p0) -> verify C h p = true ->
+    verify C (gen C c s p) x = verify C h x.
+  Proof.
+    intros [c0 [s0 [p0 ->]]] Hv. apply (verify_key C OK) in Hv.
+    apply eq_true_iff_eq. rewrite !(verify_key C OK). rewrite Hv. tauto.
+  Qed.
+
+  (* a Save attempt of a re-hash never makes the stored credential accept a string it refused before,
+     never touches the disabled flag, never creates or deletes a user ... *)
+  Lemma rehash_never_widens ccd c st a salt :
+    Inv st -> Good c st ->
+    let st' := fst (step_gen C ccd st (RehashSave a salt)) in
+    forall u, (forall x, creds st' u x = true -> creds st u x = true) /\
+              option_map u_disabled (alookup u (users st')) = option_map u_disabled (alookup u (users st)).
+  Proof.
+    intros [_ _ _ I4] [G1 G2] st' u. subst st'. unfold step_gen.
+    destruct (alookup a (pending st)) as [pd|] eqn:Ea; cbn [fst]; [|auto].
+    destruct (alookup (p_user pd) (users st)) as [usr|] eqn:Eu; cbn [fst]; acc; [|auto].
+    destruct (u_ver usr =? p_ver pd); cbn [fst]; acc; [|auto].
+    destruct (wants_rehash C usr (p_cost pd)) eqn:Ew; cbn [fst]; acc; [|auto].
+    unfold creds; acc. look. destruct (u =? p_user pd) eqn:E; keq; [subst u|auto].
+    rewrite Eu. acc. split; [|reflexivity].
+    unfold wants_rehash in Ew. destruct (u_hash usr) as [h|] eqn:Eh; [|discriminate Ew]. keq.
+    assert (Hv : verify C h (p_pw pd) = true) by (apply (G2 a pd usr h); auto; rewrite (G1 _ _ Ea) in Ew; exact Ew).
+    intros x. unfold new_hash. destruct (p_pw pd =? 0) eqn:E0; keq.
+    - intros Hx; keq. subst x. rewrite <- E0. exact Hv.
+    - destruct (I4 _ _ Eu) as [[I4' _]|[c0 [s0 [I4' _]]]]; [congruence|]. rewrite Eh in I4'. inv I4'.
+      rewrite (verify_same_key (gen C c0 s0 (u_pw usr)) (p_cost pd) salt (p_pw pd) x) by eauto. auto.
+  Qed.
+
+  (* ... and, when the password presented was not the empty string, leaves the accepted strings exactly as
+     they were.  (With the empty string -- possible only for a password bcrypt cannot tell from "", e.g. a
+     single NUL byte -- SetPassword("") stores no hash, and only "" is accepted afterwards.) *)
+  Lemma rehash_preserves ccd c st a salt :
+    Inv st -> Good c st ->
+    (forall pd, alookup a (pending st) = Some pd -> p_pw pd <> 0) ->
+    forall u x, creds (fst (step_gen C ccd st (RehashSave a salt))) u x = creds st u x.
+  Proof.
+    intros [_ _ _ I4] [G1 G2] NE u x. unfold step_gen.
+    destruct (alookup a (pending st)) as [pd|] eqn:Ea; cbn [fst]; [|auto].
+    destruct (alookup (p_user pd) (users st)) as [usr|] eqn:Eu; cbn [fst]; acc; [|auto].
+    destruct (u_ver usr =? p_ver pd); cbn [fst]; acc; [|auto].
+    destruct (wants_rehash C usr (p_cost pd)) eqn:Ew; cbn [fst]; acc; [|auto].
+    unfold creds; acc. look. destruct (u =? p_user pd) eqn:E; keq; [subst u|auto].
+    rewrite Eu. acc.
+    unfold wants_rehash in Ew. destruct (u_hash usr) as [h|] eqn:Eh; [|discriminate Ew]. keq.
+    assert (Hv : verify C h (p_pw pd) = true) by (apply (G2 a pd usr h); auto; rewrite (G1 _ _ Ea) in Ew; exact Ew).
+    unfold new_hash. specialize (NE _ eq_refl). apply N.eqb_neq in NE. rewrite NE.
+    destruct (I4 _ _ Eu) as [[I4' _]|[c0 [s0 [I4' _]]]]; [congruence|]. rewrite Eh in I4'. inv I4'.
+    apply verify_same_key; eauto.
+  Qed.
+
   (* ---- the ghost "current password" follows the history ---- *)
-  Lemma password_set_recorded ccd st u p salt o :
-    o = CreateUser u p salt \/ o = SetPassword u p salt ->
+  Lemma password_set_recorded ccd st u p salt c o :
+    o = CreateUser u p salt c \/ o = SetPassword u p salt c ->
     snd (step_gen C ccd st o) = ODone ->
     exists usr, alookup u (users (fst (step_gen C ccd st o))) = Some usr /\ u_pw usr = p.
   Proof.
@@ -401,34 +604,52 @@ Section Proofs.
   Qed.
 
   Definition sets_password (u : N) (o : op) : Prop :=
-    match o with CreateUser u' _ _ | SetPassword u' _ _ => u' = u | _ => False end.
+    match o with CreateUser u' _ _ _ | SetPassword u' _ _ _ => u' = u | _ => False end.
 
-  Lemma password_frame ccd st u o usr' :
-    ~ sets_password u o ->
+  (* nobody but CreateUser / SetPassword of u moves u's credential out of its bcrypt class: a re-hash
+     writes a password of the same class *)
+  Lemma password_frame ccd c st u o usr' :
+    Inv st -> Good c st -> ~ sets_password u o ->
     alookup u (users (fst (step_gen C ccd st o))) = Some usr' ->
-    exists usr, alookup u (users st) = Some usr /\ u_pw usr = u_pw usr'.
+    exists usr, alookup u (users st) = Some usr /\ bkey C (u_pw usr) = bkey C (u_pw usr').
   Proof.
-    intros NS H.
-    destruct o; unfold step_gen, consume in H; repeat dm; cbn [fst] in H; acc; look; repeat dm; inv_some; keq; subst;
+    intros [_ _ _ I4] [G1 G2] NS H.
+    destruct o; unfold step_gen, consume in H.
+    9: { destruct (pass_check_frame st u0 p ev) as [E1 _].
+         destruct (pass_check C st u0 p ev) as [st1 w]; cbn [fst] in *. rewrite E1 in H. eauto. }
+    9: { destruct (pass_check_frame st u0 p ev) as [E1 _].
+         destruct (pass_check C st u0 p ev) as [st1 w]; cbn [fst] in *.
+         repeat dm; acc; rewrite E1 in H; eauto. }
+    all: repeat dm; cbn [fst] in H; acc; look; repeat dm; inv_some; keq; subst;
       cbn [sets_password] in NS; try (exfalso; apply NS; reflexivity); eauto.
+    (* RehashSave wrote u *)
+    match goal with
+    | Ea : alookup _ (pending st) = Some ?pd, Eu : alookup (p_user ?pd) (users st) = Some ?usr,
+      Ew : wants_rehash C ?usr _ = true |- _ =>
+        exists usr; split; [exact Eu|]; acc;
+        unfold wants_rehash in Ew; destruct (u_hash usr) as [h|] eqn:Eh; [|discriminate Ew]; keq;
+        assert (Hv : verify C h (p_pw pd) = true) by (apply (G2 _ pd usr h Ea Eu Eh); rewrite (G1 _ _ Ea) in Ew; exact Ew);
+        destruct (I4 _ _ Eu) as [[I4' _]|[c0 [s0 [I4' _]]]]; [congruence|]; rewrite Eh in I4'; inv I4';
+        apply (verify_key C OK) in Hv; exact Hv
+    end.
   Qed.
 
-  (* after a successful password set to p, and as long as nobody sets u's password again, every other
-     attempt is refused (p and the attempt plain) *)
-  Lemma wrong_password_rejected ccd ops : forall st u p,
-    Inv st -> (forall usr, alookup u (users st) = Some usr -> u_pw usr = p) ->
-    Forall (fun o => ~ sets_password u o) ops ->
-    plain C p = true ->
-    forall q ev, q <> p -> plain C q = true ->
-      authed (snd (step_gen C ccd (run_gen C ccd st ops) (AuthPassword u q ev))) = None.
+  (* after a successful password set to p, and as long as nobody sets u's password again, every string of
+     another bcrypt class is refused -- re-hashing logins and their Save attempts may be interleaved freely *)
+  Lemma wrong_password_rejected ccd c ops : forall st u p,
+    Inv st -> Good c st ->
+    (forall usr, alookup u (users st) = Some usr -> bkey C (u_pw usr) = bkey C p) ->
+    Forall (fun o => uniform c o /\ ~ sets_password u o) ops ->
+    forall o q, password_login o u q -> bkey C q <> bkey C p ->
+      authed (snd (step_gen C ccd (run_gen C ccd st ops) o)) = None.
   Proof.
-    induction ops as [|o ops IH]; intros st u p I Hp NS Pp q ev Hq Hl.
+    induction ops as [|o' ops IH]; intros st u p I G Hp NS o q PL Hq.
     - cbn [run_gen fold_left].
-      destruct (authed (snd (step_gen C ccd st (AuthPassword u q ev)))) as [w|] eqn:E; [|reflexivity].
-      destruct (password_auth_sound _ _ _ _ _ _ I E) as [_ [usr [Eu [_ [_ Hpw]]]]].
-      specialize (Hp _ Eu). rewrite Hp in Hpw. specialize (Hpw Hl Pp). congruence.
-    - inv NS. cbn [run_gen fold_left]. apply (IH _ u p); auto using Inv_step.
-      intros usr' Hu'. destruct (password_frame _ _ _ _ _ H1 Hu') as [usr [Eu Epw]].
+      destruct (authed (snd (step_gen C ccd st o))) as [w|] eqn:E; [|reflexivity].
+      destruct (password_auth_sound ccd st o u q w I PL E) as [_ [usr [Eu [_ [_ Hpw]]]]].
+      specialize (Hp _ Eu). congruence.
+    - inv NS. destruct H1 as [U NSo]. cbn [run_gen fold_left]. apply (IH _ u p) with (q := q); auto using Inv_step, Good_step.
+      intros usr' Hu'. destruct (password_frame _ _ _ _ _ _ I G NSo Hu') as [usr [Eu Epw]].
       rewrite <- Epw. auto.
   Qed.
 
@@ -440,18 +661,20 @@ Section Proofs.
     intros I D ops o NR P. apply (dead_no_auth ccd _ sid); [|exact P]. apply dead_forever; assumption.
   Qed.
 
-  Lemma set_then_wrong_password_rejected ccd st u p salt o :
-    Inv st -> o = CreateUser u p salt \/ o = SetPassword u p salt ->
+  Lemma set_then_wrong_password_rejected ccd c st u p salt o :
+    Inv st -> Good c st -> o = CreateUser u p salt c \/ o = SetPassword u p salt c ->
     snd (step_gen C ccd st o) = ODone ->
-    forall ops, Forall (fun o' => ~ sets_password u o') ops ->
+    forall ops, Forall (fun o' => uniform c o' /\ ~ sets_password u o') ops ->
     plain C p = true ->
-    forall q ev, q <> p -> plain C q = true ->
-      authed (snd (step_gen C ccd (run_gen C ccd (fst (step_gen C ccd st o)) ops) (AuthPassword u q ev))) = None.
+    forall o' q, password_login o' u q -> q <> p -> plain C q = true ->
+      authed (snd (step_gen C ccd (run_gen C ccd (fst (step_gen C ccd st o)) ops) o')) = None.
   Proof.
-    intros I Ho Hd ops NS Pp q ev Hq Hl.
-    destruct (password_set_recorded ccd st u p salt o Ho Hd) as [usr [Eu Epw]].
-    apply (wrong_password_rejected ccd ops _ u p); auto using Inv_step.
-    intros usr' Eu'. congruence.
+    intros I G Ho Hd ops NS Pp o' q PL Hq Hl.
+    destruct (password_set_recorded ccd st u p salt c o Ho Hd) as [usr [Eu Epw]].
+    apply (wrong_password_rejected ccd c ops _ u p) with (q := q); auto using Inv_step.
+    - apply Good_step; auto. destruct Ho as [ -> | -> ]; reflexivity.
+    - intros usr' Eu'. congruence.
+    - intros E. apply Hq. apply (bkey_plain C OK); auto.
   Qed.
 
 End Proofs.
@@ -460,11 +683,14 @@ End Proofs.
 Lemma XC_ok : crypto_ok XC.
 Proof.
   split; cbn.
-  - intros [a b] [c d]; cbn. rewrite andb_true_iff, !N.eqb_eq. split; [intros [-> ->]; reflexivity | intros E; inv E; auto].
+  - intros [[a b] c] [[d e] f]; cbn. rewrite !andb_true_iff, !N.eqb_eq.
+    split; [intros [[-> ->] ->]; reflexivity | intros E; inv E; auto].
   - auto.
-  - intros s p q Hp Hq. unfold canon.
+  - intros c s p q. apply N.eqb_eq.
+  - intros p q Hp Hq. unfold canon.
     apply andb_true_iff in Hp; destruct Hp as [Hp Hp7]. apply andb_true_iff in Hp; destruct Hp as [Hp _].
     apply andb_true_iff in Hq; destruct Hq as [Hq Hq7]. apply andb_true_iff in Hq; destruct Hq as [Hq _].
     apply N.ltb_lt in Hp, Hq. apply negb_true_iff in Hp7, Hq7.
-    rewrite !N.mod_small by assumption. rewrite Hp7, Hq7. rewrite N.eqb_eq. tauto.
+    rewrite !N.mod_small by assumption. rewrite Hp7, Hq7. tauto.
+  - reflexivity.
 Qed.
